@@ -182,14 +182,14 @@ func verifSliceOff(s, base []byte) int {
 	}
 	return int(ps - pb)
 }
-func verifSameArray(a, b []byte) bool { return verifSliceOff(a, b) >= 0 }
-func verifQuiesce()                   { panic("verifQuiesce: engine-only harness") }
-func verifYield()                     {}
-func verifGoroutines() int            { panic("engine-only") }
-func verifBlocked() string            { return "" }
-func verifGID() int                   { return 0 }
-func verifObserve(tag string, v any)  { fmt.Printf("OBSERVE %s=%v\n", tag, v) }
-func verifUnsupported(msg string)     { panic("unsupported: " + msg) }
+func verifSameArray(a, b []byte) bool           { return verifSliceOff(a, b) >= 0 }
+func verifQuiesce()                             { panic("verifQuiesce: engine-only harness") }
+func verifYield()                               {}
+func verifGoroutines() int                      { panic("engine-only") }
+func verifBlocked() string                      { return "" }
+func verifGID() int                             { return 0 }
+func verifObserve(tag string, v any)            { fmt.Printf("OBSERVE %s=%v\n", tag, v) }
+func verifUnsupported(msg string)               { panic("unsupported: " + msg) }
 func verifFireTimer(t *time.Timer) bool         { panic("engine-only") }
 func verifTimerArmed(t *time.Timer) bool        { panic("engine-only") }
 func verifTimerDur(t *time.Timer) time.Duration { panic("engine-only") }
@@ -209,6 +209,6 @@ func verifAtU32(s []uint32, i int) uint32 {
 	}
 	return 0
 }
-func verifWant(id string) {}
+func verifWant(id string)                    {}
 func verifRange(name string, lo, hi int) int { return int(verifVal(name)) }
-func verifTimerResets(t *time.Timer) int { panic("engine-only") }
+func verifTimerResets(t *time.Timer) int     { panic("engine-only") }
